@@ -200,6 +200,12 @@ def unusual_context_oracle(ck, report):
         "repr-raises": ([{"processor": "FloatValueDataSource", "parameters": {"value": 2.0}}, {"processor": C.VerifUnhashableReprContextProcessor},
                          {"processor": "FloatMultiplyOperation", "parameters": {"factor": 3.0}}], {}),
     }
+    scen["failing-node-after-writing-unorderable-keys"] = ([{"processor": "FloatValueDataSource", "parameters": {"value": 2.0}},
+                                                            {"processor": C.VerifMixedKeysThenFailContextProcessor}], {})
+    scen["exception-whose-text-cannot-be-produced"] = ([{"processor": "FloatValueDataSource", "parameters": {"value": 2.0}},
+                                                        {"processor": C.VerifUnprintableRaisingOperation}], {})
+    scen["dict-subclass-as-parameter"] = ([{"processor": "FloatValueDataSource", "parameters": {"value": 2.0}}, {"processor": C.VerifNoteOperation}],
+                                          {"note": C.VerifOddDict()})
     for kind in C.VALUE_KINDS:
         scen["value-under-own-key:" + kind] = ([{"processor": "FloatValueDataSource", "parameters": {"value": 2.0}}, {"processor": C.make_value_writer(kind)},
                                                  {"processor": "FloatMultiplyOperation", "parameters": {"factor": 3.0}}], {})
